@@ -7,6 +7,7 @@
     (`allocArity`: the number of fields of a `let`, the number of variables of the environment of a `create`,
     0 for every other statement) instead of the uniform 134 blocks of `step3`;
   * a `call` and an `invoke` execute an item of non-zero size (`IsJump`, the real transition).
+  (`step3M`, Scc/X86/ConcKMStep.lean: the same with the program counters of the states in between.)
   `AllocLe A s`: every `let` of `s` has at most `A` fields and every `create` of `s` captures at most `A`
   variables.  NEW for closures: the statement the machine continues with after an `invoke` comes out of a
   closure VALUE, so bounds on statements (`AllocLe A`, the size bound of the progress argument) have to be
@@ -604,7 +605,7 @@ theorem step3P (hooks : Bool) (prog : AxCut.Prog) (c : Nat) (code : List MockOp)
           rw [e5]
           simp only [decide_eq_true_eq, Bool.and_eq_true]
           omega
-        obtain ⟨cfg', X', hs', ι', κ', m, h1, hm, hfr, hpk, h2, h3, h4, h5, k1, k1', items', hr', hat', LP⟩ :=
+        obtain ⟨cfg', X', hs', ι', κ', m, h1, hm, hfr, hpk, h2, h3, h4, h5, k1, k1', items', hr', hat', LP, hmid⟩ :=
           let_x3P HF h8 hmon L hndL RX
           (by rw [hlenk]; exact hkA) (mem_ids_keys hkt hfr) hpos
           (by
@@ -645,7 +646,7 @@ theorem step3P (hooks : Bool) (prog : AxCut.Prog) (c : Nat) (code : List MockOp)
         rw [hlenk, keys_drop hk, hdrop]; exact hkeys
       have hc133 : Γc.length ≤ 133 := by omega
       obtain ⟨cfg', X', hs', ι', κ', m, h1, hm, hfr, hpk, h2, h3, h4, h5, k1, k1', items', hr', hat', LP, a, w0, ha, hw0,
-        hmeth, hxm⟩ := create_x3P HF h8 hmon L hndL LA RX (by rw [hlenk]; exact hkA) hkd (mem_ids_keys hkt hfr)
+        hmeth, hxm, hmid⟩ := create_x3P HF h8 hmon L hndL LA RX (by rw [hlenk]; exact hkA) hkd (mem_ids_keys hkt hfr)
           (by
             simp only [WithinCapacity, htake, List.length_append, List.length_singleton] at hcap
             rw [hlenk, hn0]; exact hcap) hheap X3h hrunX hatX hroom
@@ -807,7 +808,7 @@ theorem step3P (hooks : Bool) (prog : AxCut.Prog) (c : Nat) (code : List MockOp)
         omega
       have hcapW : 2 * (cl.ctx.length + Γc.length) + 2 < Mock.T_TEMP := by
         simpa [WithinCapacity] using hcap
-      obtain ⟨k, cfg', X', XR, hs', m, h1, hm, T', hfr', h2, h3, h4, h5, k1, k1', items', hr', hat', LP, n1, Xm, hn1lt, hn1, hreal1⟩ :=
+      obtain ⟨k, cfg', X', XR, hs', m, h1, hm, T', hfr', h2, h3, h4, h5, k1, k1', items', hr', hat', LP, ⟨n1, Xm, hn1lt, hn1, hreal1⟩, hmid, hland⟩ :=
         invoke_x3P HF h8 hmon LA hndL hfitX hreal RX hfits hb'id (mem_ids_keys hk0 hfr) htp' hc1
         (fun d0 hd0 => by
           have := Pos.lookupTypeDecl_unique hd hd0
